@@ -122,7 +122,7 @@ def run(sid, ids, tier):
     json.dump(meta, open(os.path.join(dst, "meta.json"), "w"), indent=1)
 
 
-if __name__ == "__main__":
+if __name__ == "__main__" and sys.argv[1] != "benign":
     if sys.argv[1] == "verify":
         sys.exit(0 if verify(*sys.argv[2:5]) else 1)
     elif sys.argv[1] == "run":
@@ -137,3 +137,48 @@ if __name__ == "__main__":
         if "--tier" in args:
             i = args.index("--tier"); tier = args[i + 1]; del args[i:i + 2]
         run_isolated(args[0], args[1:], tier)
+
+
+# ----------------------------------------------------------------------------- benign (behaviour-preserving) changes
+BENIGN_CHECKS = {"B1": ["C02", "C03", "C04", "C05", "C06", "C07", "C11"], "B2": ["C01", "C02", "C03", "C04", "C05", "C06", "C11"],
+                 "B3": ["C08", "C04", "C07", "C11"], "B4": ["C09", "C10", "C11", "C06", "C07"], "B5": ["C12", "C13", "C14", "C18", "C07"]}
+
+
+def run_benign(bid, ids, tier):
+    """a behaviour-preserving change must leave every check silent (exit 0); results go to benign/<id>/result.json"""
+    dst = os.path.join(VERIF, "benign", bid)
+    ids = ids or BENIGN_CHECKS[bid.split("-")[0]]
+    wt = tempfile.mkdtemp(prefix="mutr_", dir="/tmp")
+    os.rmdir(wt)
+    rc, out = sh(["git", "-C", "/repo", "worktree", "add", "-q", "--detach", wt, "HEAD"])
+    assert rc == 0, out
+    res = {}
+    try:
+        rc, out = sh(["git", "-C", wt, "apply", os.path.join(dst, "patch.diff")])
+        if rc:
+            print(f"{bid}: PATCH DOES NOT APPLY: {out.strip()[:200]}")
+            return
+        rc, out = sh([PY, "-m", "pytest", "-q", "-p", "no:cacheprovider", "--timeout=900", "tests"], cwd=wt, env=dict(os.environ, PYTHONPATH=os.path.join(wt, "src")))
+        res["tests"] = out.strip().splitlines()[-1] if out.strip() else ""
+        vcopy = tempfile.mkdtemp(prefix="mutv_", dir="/tmp")
+        src = os.environ.get("VERIF_FROZEN", VERIF)
+        sh(f"cp -r {src}/check {src}/checks {src}/harness {src}/specs {src}/known_findings.json {vcopy}/ && mkdir -p {vcopy}/evidence {vcopy}/replays")
+        for pid in ids:
+            rc, out = sh([os.path.join(vcopy, "check"), pid, "--tier", tier], cwd=vcopy, env=dict(os.environ, VERIF_REPO=wt), timeout=7200)
+            viol = [l for l in out.splitlines() if l.startswith("VIOLATION")]
+            tail = [l for l in out.splitlines() if l.startswith("[")][-1:] or out.strip().splitlines()[-1:]
+            res[f"{pid}:{tier}"] = {"exit": rc, "first_violation": (viol[0][:500].replace(vcopy, "/verif") if viol else None), "summary": (tail[0][:300] if tail else "")}
+            print(f"{bid} {pid} {tier}: exit={rc} {'SILENT' if rc == 0 else 'FALSE-ALARM' if rc == 1 else 'MACHINERY'}" + (f" :: {viol[0][:260]}" if viol else (f" :: {tail[0][:200]}" if rc else "")))
+        shutil.rmtree(vcopy, ignore_errors=True)
+    finally:
+        sh(["git", "-C", "/repo", "worktree", "remove", "--force", wt])
+        shutil.rmtree(wt, ignore_errors=True)
+    json.dump(res, open(os.path.join(dst, "result.json"), "w"), indent=1)
+
+
+if __name__ == "__main__" and sys.argv[1] == "benign":
+    args = sys.argv[2:]
+    tier = "quick"
+    if "--tier" in args:
+        i = args.index("--tier"); tier = args[i + 1]; del args[i:i + 2]
+    run_benign(args[0], args[1:], tier)
